@@ -26,7 +26,11 @@ class C12(Check):
             "requests whose every variable-length part (all EDNS0 option kinds incl. local/unknown codes, TXT, NULL, "
             "unknown-type RDATA, long names, a record of every registered type) is unique per request; handlers keep them "
             "while the server receives on (one P with forced buffer recycling, all Ps, TCP connections, real sockets), then "
-            "compare with an independent decode of what the client sent and reply from them. Non-trivial = at least "
+            "compare with an independent decode of what the client sent and reply from them. Histories with non-accepted "
+            "datagrams: accepted requests preceded and interleaved by every other outcome of the accept policy (FORMERR, "
+            "NOTIMP, ignore, undecodable body, shorter than a header, custom policy), each accepted request held in "
+            "MsgAcceptFunc while the next two datagrams are received; kept-request and reply-octet oracles plus: no read "
+            "returns a buffer whose datagram has not left MsgAcceptFunc yet (DecorateReader). Non-trivial = at least "
             "one message delivered or an ok exchange; distinct by hash.")
     partial = [
         "no mixing across requests, connections or recycled buffers under real concurrency is a RUNTIME OBSERVATION: "
